@@ -285,7 +285,7 @@ def cmp_authz(case, impl, model):
         return "skip"
     if model.get("amb"):
         return "skip"
-    for k in ("reload_differs", "reload_error", "sealed_differs", "seal_error", "snapshot_differs", "again_differs"):
+    for k in ("reload_differs", "reload_error", "sealed_differs", "seal_error", "snapshot_differs", "again_differs", "base_table_differs", "base_table_sealed_differs"):
         if k in impl:
             return "%s: %s" % (k, json.dumps(impl[k])[:200])
     for k in AUTHZ_KEYS:
